@@ -173,6 +173,8 @@ def pool_for(pid, tier, seed):
     if n in (1, 9, 10, 16, 18):
         return allp
     if n in (2, 3, 4, 5):
+        if tier == 'thorough':
+            allp = allp + [c for c in cfggen.grid_pool() if c['name'] not in {x['name'] for x in allp}]
         return [c for c in allp if 'layout' in c['tags'] or 'lowalign' in c['tags'] or 'risky' in c['tags'] or 'suite' in c['tags']]
     if n == 6:
         return [c for c in allp if 'tracked' in c['tags'] or 'nontrivial' in c['tags']]
